@@ -1412,7 +1412,7 @@ class Interp:
                 parts[k] = self.join_states(parts[k], st, "%s:bb%d" % (fr.id, bb))
             else:
                 parts[k] = st
-        if len(parts) > MAX_PARTS:
+        if len(parts) > getattr(self, "max_parts", MAX_PARTS):
             it = iter(parts.values())
             acc = next(it)
             for st in it:
